@@ -17,6 +17,7 @@ Verdict(x) ==
        ELSE IF r.end # Len(x.text) THEN "ends-early"
        ELSE IF r.sys # (x.style = "sys") THEN "wrong-kind"
        ELSE IF r.name # x.value THEN "wrong-name" ELSE "ok"
+  ELSE IF x.kind = "tstmt" THEN MatchSegs(x.style, x.text, 1, x.segs)
   ELSE LET r == ScanPath(x.text) IN
        IF ~r.ok THEN "not-a-path" ELSE IF r.parts # x.parts THEN "wrong-parts" ELSE "ok"
 
